@@ -20,6 +20,8 @@ def scale_bounds(p, P):
 
 
 def main():
+    import astlib
+    astlib.AUTO_FUNCS = 0.2       # sqrt exp ln log pow at exact points in a fifth of the generated formulas
     rep = core.Report("C19")
     quick = core.tier() == "quick"
     ax, ay = pred("ge", var("x"), const(0)), pred("lt", var("y"), const(1))
